@@ -235,7 +235,7 @@ def run(index, rep, tier):
     for q in (XR + "._parse_format_statement", XR + "._parse_characters_data_block", NXR + "._NexmlCharBlockParser.parse_char_matrix"):
         fi = index.function(q)
         for n in walk_no_nested(fi.node):
-            if isinstance(n, ast.Assign) and norm(n.targets[0]) in ("self._data_type", "data_type") and isinstance(n.value, ast.Constant):
+            if isinstance(n, ast.Assign) and "data_type" in norm(n.targets[0]) and isinstance(n.value, ast.Constant) and isinstance(n.value.value, str):
                 produced.setdefault(n.value.value, (fi, n))
     rep.floor("R09.6", "data types the readers can produce", 7, len(produced))
     for dt, (fi, node) in sorted(produced.items()):
